@@ -17,6 +17,7 @@ import (
 	"path/filepath"
 	"strconv"
 	"strings"
+	"sync"
 	"time"
 
 	authconfig "github.com/bolkedebruin/rdpgw/cmd/auth/config"
@@ -469,7 +470,7 @@ func c10Binary(env *runEnv, r *rand.Rand) {
 		dir := filepath.Join(env.workdir, fmt.Sprintf("c10-%d", ci))
 		mkdirAll(dir)
 		sock := filepath.Join(dir, "a.sock")
-		gc := gwConfig{authSet: true, tlsDisable: !c.tls, hosts: []string{"127.0.0.1:3389"}, hostSelection: "roundrobin",
+		gc := gwConfig{authSet: true, tlsDisable: !c.tls, hosts: []string{"127.0.0.1:3389"}, hostSelection: "any",
 			authSocket: sock, tokenAuth: bp(false), sendBuf: c.buf, recvBuf: c.buf}
 		if c.tls {
 			gc.auth = []string{"local"}
@@ -557,6 +558,28 @@ func c10Binary(env *runEnv, r *rand.Rand) {
 			}
 		}
 		probe("after-hostile-packets")
+		// a well-formed session whose target cannot be reached (closed port, unresolvable name): an error
+		// answer for that tunnel, nothing else
+		for _, target := range []struct {
+			h string
+			p int
+		}{{"127.0.0.1", 1}, {"no-such-host.invalid", 3389}, {"", 0}} {
+			if t, _ := tunnel(); t != nil {
+				for _, p := range [][]byte{
+					packet(ptHandshake, handshakeBody(1, 0, 0, 0)),
+					packet(ptTunnelCreate, tunnelCreateBody(0, "", false)),
+					packet(ptTunnelAuth, tunnelAuthBody("pc")),
+					packet(ptChannelCreate, channelCreateBody(target.h, target.p)),
+					packet(ptData, dataBody([]byte("x"))),
+				} {
+					t.send(p)
+					t.recv(2 * time.Second)
+				}
+				t.close()
+			}
+		}
+		time.Sleep(200 * time.Millisecond)
+		probe("after-unreachable-targets")
 		g.stop()
 		fa.stop()
 	}
@@ -594,6 +617,65 @@ func c10Fragments(env *runEnv, r *rand.Rand) {
 	}
 }
 
+// c10Teardown: tunnels that end (close, protocol error, disconnect) while their host is still sending.
+// A fault in a relay goroutine is outside every recover and takes the whole process down: here that is
+// the harness process itself, which the check reports as a crash of the gateway code.
+func c10Teardown(env *runEnv, r *rand.Rand) {
+	srv := newL2Server(true, 0)
+	defer srv.close()
+	rounds := 3
+	if env.thorough() {
+		rounds = 30
+	}
+	for round := 0; round < rounds; round++ {
+		var wg sync.WaitGroup
+		n := 12
+		backends := make([]*tagBackend, n)
+		for i := range backends {
+			tag := fmt.Sprintf("<t%d-%d>", round, i)
+			backends[i] = newTagBackend([]byte(strings.Repeat(tag, (8<<20)/len(tag))))
+			backends[i].piece = 65536 // full speed: the relay is writing, not waiting, when the end comes
+		}
+		for i := 0; i < n; i++ {
+			wg.Add(1)
+			go func(i int) {
+				defer wg.Done()
+				b := backends[i]
+				host, port := splitHostPort(b.addr)
+				pk := [][]byte{
+					packet(ptHandshake, handshakeBody(1, 0, 0, 2)),
+					packet(ptTunnelCreate, tunnelCreateBody(0, fmt.Sprintf("ok|u%d|%s", i, b.addr), true)),
+					packet(ptTunnelAuth, tunnelAuthBody("pc")),
+					packet(ptChannelCreate, channelCreateBody(host, port)),
+					packet(ptData, dataBody([]byte("hello"))),
+				}
+				switch i % 3 {
+				case 0:
+					pk = append(pk, packet(ptCloseChannel, nil))
+				case 1:
+					pk = append(pk, packet(ptHandshake, handshakeBody(1, 0, 0, 2)))
+				}
+				runTunnel(srv.inst, tunnelScript{transport: []string{"ws", "legacy"}[i%2], id: fmt.Sprintf("{c10-td-%d-%d-%d}", env.seed, round, i), packets: pk, end: "close"})
+			}(i)
+		}
+		wg.Wait()
+		for _, b := range backends {
+			b.close()
+		}
+	}
+	obs := "alive"
+	if c, err := openTunnel(srv.inst, tunnelScript{transport: "ws", id: fmt.Sprintf("{c10-td-probe-%d}", env.seed)}); err != nil {
+		obs = "no-upgrade"
+	} else {
+		obs = handshakeAnswered(c)
+		c.close()
+	}
+	if srv.panics() > 0 {
+		obs = "PANIC"
+	}
+	env.emit("alive", fmt.Sprintf("teardown-while-host-is-sending:%d-rounds", rounds), obs)
+}
+
 func streamC10(env *runEnv) {
 	r := rand.New(rand.NewSource(env.seed))
 	c10Headers(env, r)
@@ -603,5 +685,6 @@ func streamC10(env *runEnv) {
 	c10NtlmParse(env, r)
 	c10Buffers(env)
 	c10Orderings(env)
+	c10Teardown(env, r)
 	c10Binary(env, r)
 }
